@@ -115,27 +115,33 @@ def queries(g, L, known, grid, rng=None, nb_limit=None, times=None):
         return L.node(n)
 
     def cnb(nb):
-        return None if nb is None else [cn(x) for x in nb]
+        """the nbunch as some container of nodes (the kind is seeded): a maker of a fresh container per call"""
+        if nb is None:
+            return lambda: None
+        c = [cn(x) for x in nb]
+        kind = rng.choice(["list", "list", "tuple", "set", "keys", "iter"]) if rng else "list"
+        return {"list": lambda: list(c), "tuple": lambda: tuple(c), "set": lambda: set(c),
+                "keys": lambda: dict.fromkeys(c).keys(), "iter": lambda: iter(list(c))}[kind]
 
     for t in ts:
         ct = None if t == NoT else L.time(t)
         for nb in nbs:
-            c = cnb(nb)
-            _call(E, "interactions", t, nb, 0, 0, "pairs", lambda: g.interactions(c, t=ct), L)
-            _call(E, "interactions_iter", t, nb, 0, 0, "pairs", lambda: g.interactions_iter(c, t=ct), L)
-            _call(E, "dn_interactions", t, nb, 0, 0, "pairs", lambda: dn.interactions(g, c, t=ct), L)
-            _call(E, "degree", t, nb, 0, 0, "degmap", lambda: g.degree(c, t=ct), L)
-            _call(E, "degree_iter", t, nb, 0, 0, "degmap", lambda: dict(g.degree_iter(c, t=ct)), L)
-            _call(E, "dn_degree", t, nb, 0, 0, "degmap", lambda: dn.degree(g, c, t=ct), L)
+            fresh = cnb(nb)
+            _call(E, "interactions", t, nb, 0, 0, "pairs", lambda: g.interactions(fresh(), t=ct), L)
+            _call(E, "interactions_iter", t, nb, 0, 0, "pairs", lambda: g.interactions_iter(fresh(), t=ct), L)
+            _call(E, "dn_interactions", t, nb, 0, 0, "pairs", lambda: dn.interactions(g, fresh(), t=ct), L)
+            _call(E, "degree", t, nb, 0, 0, "degmap", lambda: g.degree(fresh(), t=ct), L)
+            _call(E, "degree_iter", t, nb, 0, 0, "degmap", lambda: dict(g.degree_iter(fresh(), t=ct)), L)
+            _call(E, "dn_degree", t, nb, 0, 0, "degmap", lambda: dn.degree(g, fresh(), t=ct), L)
             if directed:
-                _call(E, "in_interactions", t, nb, 0, 0, "pairs", lambda: g.in_interactions(c, t=ct), L)
-                _call(E, "out_interactions", t, nb, 0, 0, "pairs", lambda: g.out_interactions(c, t=ct), L)
-                _call(E, "in_interactions_iter", t, nb, 0, 0, "pairs", lambda: g.in_interactions_iter(c, t=ct), L)
-                _call(E, "out_interactions_iter", t, nb, 0, 0, "pairs", lambda: g.out_interactions_iter(c, t=ct), L)
-                _call(E, "in_degree", t, nb, 0, 0, "degmap", lambda: g.in_degree(c, t=ct), L)
-                _call(E, "out_degree", t, nb, 0, 0, "degmap", lambda: g.out_degree(c, t=ct), L)
-                _call(E, "in_degree_iter", t, nb, 0, 0, "degmap", lambda: dict(g.in_degree_iter(c, t=ct)), L)
-                _call(E, "out_degree_iter", t, nb, 0, 0, "degmap", lambda: dict(g.out_degree_iter(c, t=ct)), L)
+                _call(E, "in_interactions", t, nb, 0, 0, "pairs", lambda: g.in_interactions(fresh(), t=ct), L)
+                _call(E, "out_interactions", t, nb, 0, 0, "pairs", lambda: g.out_interactions(fresh(), t=ct), L)
+                _call(E, "in_interactions_iter", t, nb, 0, 0, "pairs", lambda: g.in_interactions_iter(fresh(), t=ct), L)
+                _call(E, "out_interactions_iter", t, nb, 0, 0, "pairs", lambda: g.out_interactions_iter(fresh(), t=ct), L)
+                _call(E, "in_degree", t, nb, 0, 0, "degmap", lambda: g.in_degree(fresh(), t=ct), L)
+                _call(E, "out_degree", t, nb, 0, 0, "degmap", lambda: g.out_degree(fresh(), t=ct), L)
+                _call(E, "in_degree_iter", t, nb, 0, 0, "degmap", lambda: dict(g.in_degree_iter(fresh(), t=ct)), L)
+                _call(E, "out_degree_iter", t, nb, 0, 0, "degmap", lambda: dict(g.out_degree_iter(fresh(), t=ct)), L)
         for n in present:
             c = cn(n)
             _call(E, "neighbors", t, None, n, 0, "nodes", lambda: g.neighbors(c, t=ct), L)
